@@ -51,6 +51,14 @@ def fingerprint(ctx, corpus, full=True):
             dec.append((fp_item(lambda: ctx.identify(hs, category=cat)), fp_item(lambda: ctx.needs_update(hs, category=cat)),
                         fp_item(lambda: ctx.verify(PW, hs, category=cat)) if full else None))
     fp["decisions"] = dec
+    # the customised hasher objects the context hands out (public: ctx.handler(scheme, category)) carry these settings
+    def settings_of(s_, cat_):
+        hh_ = ctx.handler(s_, cat_)
+        return tuple((k_, repr(getattr(hh_, k_, None))) for k_ in ("default_rounds", "min_desired_rounds", "max_desired_rounds", "vary_rounds", "default_salt_size", "default_ident",
+                                                                   "default_variant", "block_size", "parallelism", "version", "truncate_error", "default_algs", "default_marker"))
+    hs_ = fp_item(lambda: ctx.schemes())
+    if isinstance(hs_, (list, tuple)):
+        fp["handler_settings"] = [(s_, cat_, fp_item(lambda: settings_of(s_, cat_))) for s_ in hs_ for cat_ in (None, "admin")]
     if full:
         for cat in (None, "admin"):
             def cost():
@@ -116,7 +124,7 @@ def gen_cfg(rng):
     # C10 extras: float / percent vary_rounds, string-typed numbers are applied by the rendering style
     for s in cfg["schemes"]:
         if s in c04.ROUNDS and H.get(s).rounds_cost == "linear" and rng.random() < 0.3 and "rounds" not in cfg["opts"].get(s, {}):
-            cfg["opts"].setdefault(s, {})["vary_rounds"] = rng.choice([0.125, 0.333, 0.1, "10%", "12.5%", 0.05, 3, 1 / 3, 0.1234567, "57%", "7%", 0.30000000000000004, 2 / 7, 5e-05, 1e-06, 2.5e-05, "1E-3"])
+            cfg["opts"].setdefault(s, {})["vary_rounds"] = rng.choice([0.125, 0.333, 0.1, "10%", "12.5%", 0.05, 3, 1 / 3, 0.1234567, "57%", "7%", 0.30000000000000004, 2 / 7, 5e-05, 1e-06, 2.5e-05, "1E-3", 1.0, "100%", "1.0"])
     # booleans as real bools and in the documented string spellings (per scheme, for a category, and through the wildcard scheme)
     for s in cfg["schemes"]:
         if s in ("bcrypt", "des_crypt") and rng.random() < 0.5:
@@ -395,6 +403,19 @@ def invalid_changes(rng, cfg):
             out.append(("vary-above-1", {f"{s}__vary_rounds": 1.5}))
             out.append(("rounds-not-a-number", {f"{s}__min_rounds": "many"}))
             out.append(("category-min-above-max", {f"admin__{s}__min_rounds": hi, f"admin__{s}__max_rounds": lo}))
+    # a change that is fine for one scheme and invalid for another: whatever was already applied to the first must be rolled back
+    good = {"fshp": {"fshp__variant": 3}, "scrypt": {"scrypt__block_size": 4, "scrypt__parallelism": 3}, "bcrypt": {"bcrypt__ident": "2a"}, "phpass": {"phpass__ident": "H"},
+            "bcrypt_sha256": {"bcrypt_sha256__version": 1}, "scram": {"scram__algs": "sha-1,md5"}, "des_crypt": {"des_crypt__truncate_error": True},
+            "md5_crypt": {"md5_crypt__salt_size": 3}, "sha256_crypt": {"sha256_crypt__salt_size": 5}, "pbkdf2_sha256": {"pbkdf2_sha256__salt_size": 3}, "ldap_salted_sha1": {"ldap_salted_sha1__salt_size": 9}}
+    for g in schemes:
+        if g in good:
+            for s in schemes:
+                if s != g:
+                    out.append(("valid-option-then-unknown-option", dict(good[g], **{f"{s}__no_such_option": 1})))
+                    if s in c04.ROUNDS:
+                        lo, hi = c04.ROUNDS[s]
+                        out.append(("valid-option-then-min-above-max", dict(good[g], **{f"{s}__min_rounds": hi, f"{s}__max_rounds": lo})))
+            out.append(("valid-option-then-unknown-scheme", dict(good[g], schemes=schemes + ["no_such_scheme"])))
     real = [s for s in schemes if s != "unix_disabled"]
     for s in real:
         out.append(("default-deprecated", dict(default=s, deprecated=[s])))
@@ -427,6 +448,12 @@ def failed_changes(run, start, count):
     for idx in range(start, start + count):
         rng = run.rng(f"fc{idx}")
         cfg = gen_cfg(rng)
+        if idx % 3 == 0 and "plaintext" not in cfg["schemes"] and not cfg.get("all") and not any(c.get("all") for c in cfg["cats"].values()):
+            # schemes whose non-cost settings are left at the class defaults (the change under test is the first to customise them)
+            for s_ in ("fshp", "scrypt"):
+                if s_ not in cfg["schemes"]:
+                    cfg["schemes"].insert(rng.randrange(len(cfg["schemes"]) + 1) if cfg.get("default") else len(cfg["schemes"]), s_)
+                    cfg["opts"][s_] = {"rounds": EXTRA_INT_OPTS[s_]["rounds"]}
         try:
             for cat in [None] + list(cfg["cats"]):
                 M.default_scheme(cfg, cat)
